@@ -147,6 +147,21 @@ let codec_op toks =
       let pos = List.sort compare !pos in
       Printf.printf "flip: %d [%s]\n" (Array.length bytes) (String.concat ", " (List.map string_of_int pos));
       print_read (List.map (fun x -> byte_tbl.(x)) (Array.to_list bytes))
+  | "flipend" :: rest ->
+      let (a, b) = split_bar [] rest in
+      let f = parse_frame b in
+      let bytes = Array.of_list (List.map int_of_n (write_frame f)) in
+      let nbits = Array.length bytes * 8 in
+      let pos = ref [] in
+      List.iter (fun t ->
+        let p = nbits - 1 - (int_of_string t mod nbits) in
+        if not (List.mem p !pos) then begin
+          pos := p :: !pos;
+          bytes.(p / 8) <- bytes.(p / 8) lxor (1 lsl (p mod 8))
+        end) (List.tl a);
+      let pos = List.sort compare !pos in
+      Printf.printf "flip: %d [%s]\n" (Array.length bytes) (String.concat ", " (List.map string_of_int pos));
+      print_read (List.map (fun x -> byte_tbl.(x)) (Array.to_list bytes))
   | "mutfix" :: rest ->
       let (a, b) = split_bar [] rest in
       let f = parse_frame b in
